@@ -62,8 +62,8 @@ Proof.
       destruct (reps3_length _ _ _ _ Hc) as [L1 _].
       assert (Hlen : length l = len) by (rewrite L1, firstn_length, skipn_length; lia).
       cbn [getpath index2 h_getpath h_index2]. unfold zlen. rewrite Hlen.
-      destruct (slice_bounds s e (Z.of_nat len)) as [zs ze] eqn:SB.
-      destruct (slice_bounds_range _ _ _ _ _ (Nat2Z.is_nonneg _) SB) as [[B1 B2] B3].
+      destruct (slice_bounds_read s e (Z.of_nat len)) as [zs ze] eqn:SB.
+      destruct (slice_bounds_read_range _ _ _ _ _ (Nat2Z.is_nonneg _) SB) as [[B1 B2] B3].
       eexists. split; [reflexivity|].
       unfold reslice, sub.
       set (st := Z.to_nat zs). set (en := Z.to_nat ze).
@@ -110,8 +110,8 @@ Proof.
       destruct (reps3_length _ _ _ _ Hc) as [L1 L2].
       assert (Hlen : length l = len) by (rewrite L1, firstn_length, skipn_length; lia).
       cbn [getpath index2 h_getpath h_index2]. unfold zlen at 1. rewrite Hlen.
-      destruct (slice_bounds s e (Z.of_nat len)) as [zs ze] eqn:SB.
-      destruct (slice_bounds_range _ _ _ _ _ (Nat2Z.is_nonneg _) SB) as [[B1 B2] B3].
+      destruct (slice_bounds_read s e (Z.of_nat len)) as [zs ze] eqn:SB.
+      destruct (slice_bounds_read_range _ _ _ _ _ (Nat2Z.is_nonneg _) SB) as [[B1 B2] B3].
       rewrite (sub_nat l zs ze) by lia.
       set (st := Z.to_nat zs). set (en := Z.to_nat ze).
       assert (Hse : st <= en) by (unfold st, en; lia).
